@@ -2,6 +2,7 @@ import Sif.Proofs.C04
 import Sif.Proofs.C04Add
 import Sif.Proofs.C04Remove
 import Sif.Proofs.C04RemoveBps
+import Sif.Proofs.C04Sym
 import Sif.Spec.C04
 import Sif.Model.Clp.Units
 /-
@@ -34,6 +35,17 @@ def addRemove_Statement : Prop :=
     calculatePoolUnits P R A n e fS fB r = .ok (some u) →
     calculateWithdrawalFromUnits u.poolUnits (R + n) (A + e) u.lpUnits u.lpUnits = .ok (n', e', left) →
     addRemoveOK r fS fB R A n e n' e' = true
+
+/-- **Clauses 2 and 3, symmetric additions (partial: the asymmetric branches go through the
+    square-root swap amount and are judged on the implementation only).**  Adding (n, e) in the pool's
+    own ratio and immediately removing the units received returns at most n + dust and e + dust — for
+    every pool, every fee and ratio-shifting setting. -/
+theorem addRemove_symmetric_partial {P R A n e : Nat} {fS fB r : Dec} {u : UnitsRes} {n' e' left : Nat}
+    (hR : R ≠ 0) (hs : symmetryState A e R n = .symmetric)
+    (h : calculatePoolUnits P R A n e fS fB r = .ok (some u))
+    (hw : calculateWithdrawalFromUnits u.poolUnits (R + n) (A + e) u.lpUnits u.lpUnits = .ok (n', e', left)) :
+    addRemoveOK r fS fB R A n e n' e' = true :=
+  Sif.Clp.addRemove_symmetric hR hs h hw
 
 /-- full statement of clause 4 for liquidity messages with ratio shifting off (not proved yet;
     judged on every implementation message): an add never lowers the backing per unit -/
